@@ -69,7 +69,7 @@ PROBES = ['expected-read', 'expected-write', 'hup-with-unread-data', 'peer-write
           'fault:fd_reuse', 'fd-reuse-of-registered-closed', 'fault:peer_close', 'fault:poll_eintr', 'hup-disconnect-accepted', 'late-discard',
           'grace-iteration', 'pollers-compared', 'cfg:Select', 'cfg:Poll', 'cfg:EPoll']
 TIERS = {
-    'quick': dict(runs=16000, wall=30, chunk=25, cfg=dict(max_ops=16)),
+    'quick': dict(runs=40000, wall=30, chunk=25, cfg=dict(max_ops=16)),
     'thorough': dict(runs=400000, wall=600, chunk=200, cfg=dict(max_ops=40)),
 }
 
